@@ -12,6 +12,10 @@
 //!           Results are logged in the unit of the case: coefficients, intercepts and predictions at scale
 //!           10^5 * 2^-ue, the gap at 10^5 * 2^-2ue (divisions by powers of two, exact).
 //!           When ue /= 0 and lte > 0 the loose fit is repeated with ue = 0 (event "loose0"): unit equivariance.
+//!           off (optional, one integer per column, default 0): the records handed to the estimator are x + off
+//!           (exact: |x + off| < 2^24 for f32 cases, < 2^53 for f64); with an offset the intercept is logged as 0
+//!           (it is of the size of the offset; the specification works on the un-shifted integers and the logged
+//!           predictions, which are shift-invariant).
 //! events:   {"ev":"fit"|"loose"|"loose0", "res":"ok"|"err", "sane":bool, "w":[p][t], "b":[t], "gap", "steps",
 //!            "zero":[p][t] (coefficient is exactly 0.0), "yhat":[n][t] (predict on the training records)}
 use linfa::traits::{Fit, Predict};
@@ -81,10 +85,12 @@ fn run_typed<F: Float>(kind: &str, inp: &Value) -> Vec<Value> {
     let t = geti(inp, "t") as usize;
     let form = gets(inp, "form");
     let icpt = getb(inp, "icpt");
+    let off: Vec<i64> = inp.get("off").map(ivec).unwrap_or_else(|| vec![0; p]);
+    let shifted = off.iter().any(|o| *o != 0);
     let x: Array2<F> = if form == "fview" {
-        Array2::from_shape_fn((n, p).f(), |(i, j)| F::cast(xr[i][j] as f64))
+        Array2::from_shape_fn((n, p).f(), |(i, j)| F::cast((xr[i][j] + off[j]) as f64))
     } else {
-        Array2::from_shape_fn((n, p), |(i, j)| F::cast(xr[i][j] as f64))
+        Array2::from_shape_fn((n, p), |(i, j)| F::cast((xr[i][j] + off[j]) as f64))
     };
     let ue = inp.get("ue").and_then(|v| v.as_i64()).unwrap_or(0) as i32;
     let y2u = |u: f64| -> Array2<F> { Array2::from_shape_fn((n, t), |(i, j)| F::cast(yr[i][j] as f64 * u)) };
@@ -105,7 +111,7 @@ fn run_typed<F: Float>(kind: &str, inp: &Value) -> Vec<Value> {
                     let yh = m.predict(&x);
                     Fitted {
                         w: m.params().iter().map(|v| vec![f2(*v)]).collect(),
-                        b: vec![f2(m.intercept())],
+                        b: vec![if shifted { 0.0 } else { f2(m.intercept()) }],
                         gap: 0.0,
                         steps: 0,
                         yhat: yh.iter().map(|v| vec![f2(*v)]).collect(),
